@@ -780,6 +780,11 @@ pub fn c16_case(dir: &Path, states: &[CState], order: &[usize]) -> Result<String
                 }
                 "release_after" => {
                     let op = held_op[c].unwrap();
+                    if states[c] == CState::Pipelined {
+                        // the server may go on to the pipelined GET (un-owned select! bit): whenever it
+                        // arrives at the gate it passes, so the handler can never be left waiting there
+                        srv.gate.auto_release_prefix(format!("get {}", hex(format!("s{}", c).as_bytes())));
+                    }
                     srv.gate.release_after(op);
                     // the command was executed: its reply must arrive, complete
                     match read_frame(&mut socks[c], T20) {
@@ -792,17 +797,7 @@ pub fn c16_case(dir: &Path, states: &[CState], order: &[usize]) -> Result<String
                     held_op[c] = None;
                     // a pipelined second request may or may not be served (un-owned select! bit): let it through
                     if states[c] == CState::Pipelined {
-                        // its GET may arrive at the gate now or later: release it (and only it) when it does
-                        let n_before = srv.gate.n_ops();
                         srv.quiesce(e0);
-                        for id in 0..srv.gate.n_ops() {
-                            let o = &srv.gate.snapshot()[id];
-                            if o.desc.starts_with(&format!("get {}", hex(format!("s{}", c).as_bytes()))) {
-                                srv.gate.release_before(id);
-                                srv.gate.release_after(id);
-                            }
-                        }
-                        let _ = n_before;
                     }
                 }
                 "resume_reading" => {
